@@ -823,4 +823,369 @@ theorem stuck_final (henc : EncOK enc prog)
 
 end progress
 
+/-! ### conversely, a final pipeline state is stuck (nothing is left to do) -/
+
+section final
+variable {enc : PItem → QItem} {prog : List Pipeline.Instr} {cap N : Nat} {s : PState}
+
+theorem final_all_idle (hi : PInv enc prog cap N s) (hf : Pipeline.Final s.p) :
+    ∀ (t : Nat) (st : Queue.TStatus), s.q.thr[t]? = some st → st = Queue.TStatus.idle := by
+  intro t st ht
+  obtain ⟨hp, _, hw⟩ := hf
+  have hpull : st.inPull = true → False := by
+    intro hin
+    obtain ⟨w, _, hwi⟩ := hi.c1 t st ht hin
+    have := hw _ (Pipeline.mem_of_getElem? hwi)
+    cases this
+  have hpush : ∀ it, st.item? = some it → False := by
+    intro it hit
+    have ht0 : t = 0 := hi.d.only t st ht (by rw [hit]; simp)
+    subst ht0
+    obtain ⟨x, r, hx, _⟩ := hi.c0 st it ht hit
+    rw [hp] at hx; cases hx
+  cases st with
+  | idle => rfl
+  | pushing it => exact (hpush it rfl).elim
+  | waitNF it => exact (hpush it rfl).elim
+  | notifNF it => exact (hpush it rfl).elim
+  | pulling => exact (hpull rfl).elim
+  | waitNE => exact (hpull rfl).elim
+  | notifNE => exact (hpull rfl).elim
+
+theorem final_stuck (hi : PInv enc prog cap N s) (hf : Pipeline.Final s.p) : Stuck enc s := by
+  intro e s' h
+  exfalso
+  have hidle := final_all_idle hi hf
+  obtain ⟨hp, hq0, hw⟩ := hf
+  have noq : ∀ {e : Queue.Event} {q' : Queue.State}, Queue.step s.p.cap s.q e = some q' →
+      e.pre .idle = true := by
+    intro e q' hs
+    obtain ⟨st, hst, hpre⟩ := Queue.step_pre hs
+    rw [hidle _ _ hst] at hpre; exact hpre
+  have nop : ∀ {e : Pipeline.Event} {p' : Pipeline.State}, Pipeline.step? true s.p e = some p' →
+      False := by
+    intro e p' hs
+    have hex : ∀ {w : Nat} {v : Pipeline.WState}, s.p.workers[w]? = some v → v = .exited :=
+      fun h => hw _ (Pipeline.mem_of_getElem? h)
+    cases Pipeline.stepI_of_step? hs with
+    | push h _ => rw [hp] at h; cases h
+    | waitEmpty h _ => rw [hp] at h; cases h
+    | close h => rw [hp] at h; cases h
+    | pull h _ => cases hex h
+    | exit h _ _ => cases hex h
+    | buffer h => cases hex h
+    | release1 hne hall =>
+      obtain ⟨v, hv⟩ := List.exists_mem_of_ne_nil _ hne
+      have h1 := hall v hv; have h2 := hw v hv; rw [h1] at h2; cases h2
+    | release _ _ hne hall =>
+      obtain ⟨v, hv⟩ := List.exists_mem_of_ne_nil _ hne
+      have h1 := hall v hv; have h2 := hw v hv; rw [h1] at h2; cases h2
+    | advance h _ _ => cases hex h
+    | advance4 h => cases hex h
+  cases e with
+  | stut e =>
+    simp only [pstep] at h
+    split at h
+    · next hok =>
+      simp only [Option.map_eq_some_iff] at h
+      obtain ⟨q', hs, _⟩ := h
+      have hpre := noq hs
+      cases e <;> simp [Queue.Event.pre, Queue.TStatus.isIdle, Queue.TStatus.isPushing,
+        Queue.TStatus.isNotifNF, Queue.TStatus.isWaitNF, Queue.TStatus.isPulling,
+        Queue.TStatus.isNotifNE, Queue.TStatus.isWaitNE] at hpre <;> simp [stutOK, hp] at hok
+      next t =>
+        cases t with
+        | zero => simp [stutOK] at hok
+        | succ w =>
+          simp only [stutOK, decide_eq_true_eq] at hok
+          have := hw _ (Pipeline.mem_of_getElem? hok); cases this
+    · cases h
+  | push w => simp only [pstep, hp] at h; cases h
+  | pull t x w =>
+    simp only [pstep, Option.bind_eq_some_iff, Option.map_eq_some_iff] at h
+    obtain ⟨_, _, _, hs, _⟩ := h
+    exact nop hs
+  | eos t =>
+    simp only [pstep, Option.bind_eq_some_iff, Option.map_eq_some_iff] at h
+    obtain ⟨_, _, _, hs, _⟩ := h
+    exact nop hs
+  | close => simp only [pstep, hp] at h; cases h
+  | waitEmpty => simp only [pstep, hp] at h; cases h
+  | work e =>
+    simp only [pstep] at h
+    split at h
+    · simp only [Option.map_eq_some_iff] at h
+      obtain ⟨_, hs, _⟩ := h
+      exact nop hs
+    · cases h
+
+end final
+
+/-! ### executions without spurious wake-ups are bounded -/
+
+/-- weights for the product: a thread outside the queue 5 (it may still start its next call),
+notified 4, evaluating its loop condition 3, asleep 2 -/
+def wt2 : Queue.TStatus → Nat
+  | .idle => 5
+  | .notifNF _ | .notifNE => 4
+  | .pushing _ | .pulling => 3
+  | .waitNF _ | .waitNE => 2
+
+def mu2 (q : Queue.State) : Nat := (q.thr.map wt2).sum
+
+theorem mu2_le (q : Queue.State) : mu2 q ≤ 5 * q.thr.length := by
+  unfold mu2
+  induction q.thr with
+  | nil => simp
+  | cons a l ih =>
+    have : wt2 a ≤ 5 := by cases a <;> simp [wt2]
+    simp only [List.map_cons, List.sum_cons, List.length_cons]; omega
+
+theorem sum_wt2_set {l : List Queue.TStatus} {t : Nat} {a : Queue.TStatus} (b : Queue.TStatus)
+    (h : l[t]? = some a) : ((l.set t b).map wt2).sum + wt2 a = (l.map wt2).sum + wt2 b := by
+  induction l generalizing t with
+  | nil => simp at h
+  | cons x xs ih =>
+    cases t with
+    | zero =>
+      simp only [List.getElem?_cons_zero, Option.some.injEq] at h
+      subst h
+      simp only [List.set_cons_zero, List.map_cons, List.sum_cons]; omega
+    | succ t =>
+      simp only [List.getElem?_cons_succ] at h
+      have := ih h
+      simp only [List.set_cons_succ, List.map_cons, List.sum_cons]; omega
+
+/-- the potential of the product: the pipeline potential `Φ` of C05 first, the thread statuses second -/
+def M (s : PState) : Nat := Pipeline.Φ s.p * (5 * s.q.thr.length + 1) + mu2 s.q
+
+theorem stut_decreases {enc : PItem → QItem} {s : PState} {cap : Nat} {e : Queue.Event}
+    {q' : Queue.State} (hok : stutOK enc s e = true) (hsp : e.isSpur = false)
+    (hq : Queue.step cap s.q e = some q') : mu2 q' < mu2 s.q := by
+  cases Queue.step_sound hq with
+  | @pushEnter t it ht =>
+    have := sum_wt2_set (.pushing it) ht
+    simp only [mu2, Queue.State.setT, wt2] at this ⊢; omega
+  | @pushWait t it ht _ _ _ =>
+    have := sum_wt2_set (.waitNF it) ht
+    simp only [mu2, Queue.State.setT, wt2] at this ⊢; omega
+  | @pushWake t it ht =>
+    have := sum_wt2_set (.pushing it) ht
+    simp only [mu2, Queue.State.setT, wt2] at this ⊢; omega
+  | pushSpur _ => simp [Queue.Event.isSpur] at hsp
+  | @pullEnter t ht =>
+    have := sum_wt2_set .pulling ht
+    simp only [mu2, Queue.State.setT, wt2] at this ⊢; omega
+  | @pullWait t ht _ _ =>
+    have := sum_wt2_set .waitNE ht
+    simp only [mu2, Queue.State.setT, wt2] at this ⊢; omega
+  | @pullWake t ht =>
+    have := sum_wt2_set .pulling ht
+    simp only [mu2, Queue.State.setT, wt2] at this ⊢; omega
+  | pullSpur _ => simp [Queue.Event.isSpur] at hsp
+  | pushRefuse _ _ => simp [stutOK] at hok
+  | pushAdmit _ _ _ _ => simp [stutOK] at hok
+  | tryPushRefuse _ _ => simp [stutOK] at hok
+  | tryPushWouldBlock _ _ _ _ => simp [stutOK] at hok
+  | tryPushAdmit _ _ _ _ => simp [stutOK] at hok
+  | pullEos _ _ _ => simp [stutOK] at hok
+  | pullTake _ _ _ _ => simp [stutOK] at hok
+  | tryPullEmpty _ _ => simp [stutOK] at hok
+  | tryPullTake _ _ _ _ => simp [stutOK] at hok
+  | close _ => simp [stutOK] at hok
+
+theorem lex_lt {a a' K m m' : Nat} (h : a' < a) (hm : m' < K) : a' * K + m' < a * K + m := by
+  have := Nat.mul_le_mul_right K (Nat.succ_le_of_lt h)
+  rw [Nat.succ_mul] at this
+  omega
+
+/-- Every transition of the product except a spurious wake-up strictly decreases `M`. -/
+theorem pstep_measure {enc : PItem → QItem} {s s' : PState} {e : PEv}
+    (h : pstep enc s e = some s') (hsp : e.isSpur = false) : M s' < M s := by
+  have both : ∀ {p' : Pipeline.State} {q' : Queue.State} {pe : Pipeline.Event} {qe : Queue.Event},
+      Pipeline.step? true s.p pe = some p' → Queue.step s.p.cap s.q qe = some q' →
+      M ⟨p', q'⟩ < M s := by
+    intro p' q' pe qe hp hq
+    have h1 := Pipeline.step?_decreases true _ _ _ hp
+    have h2 := Queue.step_thr_length hq
+    have h3 := mu2_le q'
+    simp only [M, h2]
+    exact lex_lt h1 (by omega)
+  have ponly : ∀ {p' : Pipeline.State} {pe : Pipeline.Event},
+      Pipeline.step? true s.p pe = some p' → M ⟨p', s.q⟩ < M s := by
+    intro p' pe hp
+    have h1 := Pipeline.step?_decreases true _ _ _ hp
+    have h3 := mu2_le s.q
+    simp only [M]
+    exact lex_lt h1 (by omega)
+  cases e with
+  | stut e =>
+    simp only [pstep] at h
+    split at h
+    · next hok =>
+      simp only [Option.map_eq_some_iff] at h
+      obtain ⟨q', hq, rfl⟩ := h
+      have := stut_decreases hok hsp hq
+      have h2 := Queue.step_thr_length hq
+      simp only [M, h2]; omega
+    · cases h
+  | push w =>
+    simp only [pstep] at h
+    split at h
+    · simp only [Option.bind_eq_some_iff, Option.map_eq_some_iff] at h
+      obtain ⟨q', hq, p', hp, rfl⟩ := h
+      exact both hp hq
+    · cases h
+  | pull t x w =>
+    simp only [pstep, Option.bind_eq_some_iff, Option.map_eq_some_iff] at h
+    obtain ⟨q', hq, p', hp, rfl⟩ := h
+    exact both hp hq
+  | eos t =>
+    simp only [pstep, Option.bind_eq_some_iff, Option.map_eq_some_iff] at h
+    obtain ⟨q', hq, p', hp, rfl⟩ := h
+    exact both hp hq
+  | close =>
+    simp only [pstep] at h
+    split at h
+    · simp only [Option.bind_eq_some_iff, Option.map_eq_some_iff] at h
+      obtain ⟨q', hq, p', hp, rfl⟩ := h
+      exact both hp hq
+    · cases h
+  | waitEmpty =>
+    simp only [pstep] at h
+    split at h
+    · split at h
+      · simp only [Option.map_eq_some_iff] at h
+        obtain ⟨p', hp, rfl⟩ := h
+        exact ponly hp
+      · cases h
+    · cases h
+  | work e =>
+    simp only [pstep] at h
+    split at h
+    · simp only [Option.map_eq_some_iff] at h
+      obtain ⟨p', hp, rfl⟩ := h
+      exact ponly hp
+    · cases h
+
+theorem prun_bounded {enc : PItem → QItem} : ∀ (es : List PEv) {s s' : PState},
+    prun enc s es = some s' → (∀ e ∈ es, e.isSpur = false) → es.length + M s' ≤ M s
+  | [], s, s', h, _ => by simp only [prun, Option.some.injEq] at h; subst h; simp
+  | e :: es, s, s', h, hsp => by
+    simp only [prun] at h
+    cases hs : pstep enc s e with
+    | none => simp [hs] at h
+    | some s1 =>
+      simp only [hs, Option.bind_some] at h
+      have h1 := pstep_measure hs (hsp e List.mem_cons_self)
+      have h2 := prun_bounded es h (fun e' he' => hsp e' (List.mem_cons_of_mem _ he'))
+      simp only [List.length_cons]; omega
+
+/-! ### the product hides nothing: every step of a call in progress that the Queue model allows
+is a transition of the product -/
+
+theorem product_faithful {enc : PItem → QItem} {prog : List Pipeline.Instr} {cap N : Nat}
+    {s : PState} (henc : EncOK enc prog) (hwf : Pipeline.WellFormedShape N prog)
+    (hi : PInv enc prog cap N s) {e : Queue.Event} {q' : Queue.State}
+    (hs : Queue.step cap s.q e = some q') (hns : e.isStart = false) :
+    ∃ pe p', pstep enc s pe = some ⟨p', q'⟩ := by
+  have hcap := hi.cap_eq
+  have hcur := pinv_cur henc hi
+  cases Queue.step_sound hs with
+  | pushEnter _ => simp [Queue.Event.isStart] at hns
+  | pushWait _ _ _ _ => exact ⟨.stut _, _, stut_step hcap rfl hs⟩
+  | pushWake _ => exact ⟨.stut _, _, stut_step hcap rfl hs⟩
+  | pushSpur _ => exact ⟨.stut _, _, stut_step hcap rfl hs⟩
+  | @pushRefuse t it ht hcl =>
+    exfalso
+    have ht0 : t = 0 := hi.d.only t _ ht (by simp [Queue.TStatus.item?])
+    subst ht0
+    obtain ⟨x, r, hp, _⟩ := hi.c0 _ it ht rfl
+    have := (Pipeline.inv5_reachable hwf (fun h => by simp at h) hi.reach).closedProg
+      (hi.closed_eq.trans hcl)
+    rw [hp] at this; cases this
+  | @pushAdmit _ t it w ht hfit hcl hn =>
+    have ht0 : t = 0 := hi.d.only t _ ht (by simp [Queue.TStatus.item?])
+    subst ht0
+    obtain ⟨x, r, hp, hx⟩ := hi.c0 _ it ht rfl
+    subst hx
+    have hg : Pipeline.pushGuard true s.p x := by
+      refine ⟨hi.closed_eq.trans hcl, ?_⟩
+      rcases hfit with h | h
+      · left; rw [hcur, hcap, ← henc.size]; exact h
+      · right; exact ⟨rfl, (pinv_empty hi).mpr h⟩
+    have hps := Pipeline.step?_of_stepI (fx := true) (.push hp hg)
+    exact ⟨.push w, _, by simp only [pstep, hp, hcap, hs, hps, Option.bind_some, Option.map_some] <;> rfl⟩
+  | tryPushRefuse _ _ => simp [Queue.Event.isStart] at hns
+  | tryPushWouldBlock _ _ _ _ => simp [Queue.Event.isStart] at hns
+  | tryPushAdmit _ _ _ _ => simp [Queue.Event.isStart] at hns
+  | pullEnter _ => simp [Queue.Event.isStart] at hns
+  | pullWait _ _ _ => exact ⟨.stut _, _, stut_step hcap rfl hs⟩
+  | pullWake _ => exact ⟨.stut _, _, stut_step hcap rfl hs⟩
+  | pullSpur _ => exact ⟨.stut _, _, stut_step hcap rfl hs⟩
+  | @pullEos t ht he hcl =>
+    obtain ⟨w, rfl, hw⟩ := hi.c1 t _ ht rfl
+    have hps := Pipeline.step?_of_stepI (fx := true)
+      (.exit hw (hi.closed_eq.trans hcl) ((pinv_empty hi).mpr he))
+    exact ⟨.eos w, _, by simp only [pstep, hcap, hs, hps, Option.bind_some, Option.map_some] <;> rfl⟩
+  | @pullTake _ t it v ht hm hmax hn =>
+    obtain ⟨w, rfl, hw⟩ := hi.c1 t _ ht rfl
+    obtain ⟨x, rfl, hmx⟩ := isMax_dec henc hi.perm (fun y hy => hi.sub y (.inl hy))
+      (Queue.isMax_iff.mpr ⟨hm, hmax⟩)
+    have hps := Pipeline.step?_of_stepI (fx := true) (.pull hw hmx)
+    exact ⟨.pull w x v, _, by simp only [pstep, hcap, hs, hps, Option.bind_some, Option.map_some] <;> rfl⟩
+  | tryPullEmpty _ _ => simp [Queue.Event.isStart] at hns
+  | tryPullTake _ _ _ _ => simp [Queue.Event.isStart] at hns
+  | close _ => simp [Queue.Event.isStart] at hns
+
+/-! ### a concrete run of the product (non-vacuity) -/
+namespace Demo
+
+def ctg : PItem := .contig 0 2147483647 5 5 0
+def tok : PItem := .token 0 1000000 1
+/-- one contig, one round of two tokens, close; two workers (`Props.C05.demoProg`) -/
+def prog : List Pipeline.Instr := [.push ctg, .push tok, .push tok, .close]
+def enc : PItem → QItem := rankEnc prog
+
+/-- Worker 0 goes to sleep on the empty queue and is woken by the producer's `notify_one`; the
+contig and the token round go through; both workers see end-of-stream. -/
+def evs : List PEv :=
+  [ .stut (.pullEnter 1), .stut (.pullWait 1),
+    .stut (.pushEnter 0 (enc ctg)), .push (some 1),
+    .stut (.pullWake 1), .pull 0 ctg none, .work (.buffer 0),
+    .stut (.pushEnter 0 (enc tok)), .push none,
+    .stut (.pushEnter 0 (enc tok)), .push none,
+    .close,
+    .stut (.pullEnter 1), .pull 0 tok none,
+    .stut (.pullEnter 2), .pull 1 tok none,
+    .work (.release 1), .work (.advance 0), .work (.advance 1),
+    .work (.release 2), .work (.advance 0), .work (.advance 1),
+    .work (.release 3), .work (.advance 0), .work (.advance 1),
+    .work (.release 4), .work (.advance 0), .work (.advance 1),
+    .stut (.pullEnter 1), .eos 0, .stut (.pullEnter 2), .eos 1 ]
+
+/-- after the first two events: worker 0 asleep in `not_empty.wait` -/
+def asleep : PState :=
+  { p := Pipeline.init prog 8 2,
+    q := { items := [], cur := 0, closed := false, thr := [.idle, .waitNE, .idle], hist := [] } }
+
+/-- after four events: the contig is queued, worker 0 has been notified and has not resumed -/
+def notified : PState :=
+  { p := { Pipeline.init prog 8 2 with prog := [.push tok, .push tok, .close], queue := [ctg] },
+    q := { items := [enc ctg], cur := 5, closed := false, thr := [.idle, .notifNE, .idle],
+           hist := [.accept 0 (enc ctg)] } }
+
+def final : PState :=
+  { p := { prog := [], queue := [], closed := true, cap := 8, workers := [.exited, .exited],
+           buffered := [], batches := [[0]] },
+    q := { items := [], cur := 0, closed := true, thr := [.idle, .idle, .idle],
+           hist := [.eos 2, .eos 1, .take 2 (enc tok), .take 1 (enc tok), .close 0,
+                    .accept 0 (enc tok), .accept 0 (enc tok), .take 1 (enc ctg), .accept 0 (enc ctg)] } }
+
+theorem run_asleep : prun enc (init prog 8 2) (evs.take 2) = some asleep := by decide
+theorem run_notified : prun enc (init prog 8 2) (evs.take 4) = some notified := by decide
+theorem run_final : prun enc (init prog 8 2) evs = some final := by decide
+
+end Demo
+
 end Ragc.Product
